@@ -123,7 +123,8 @@ def load_task(task):
             cluster_file = None
             assign = None
             if clustered:
-                crow, assign = inputs.make_clusters(rng, [r for r in rows], int(rng.integers(1, 4)), textual_ids=c % 12 == 11)
+                crow, assign = inputs.make_clusters(rng, [r for r in rows], int(rng.integers(1, 4)), textual_ids=c % 12 == 11,
+                                                    per_mutation=c % 24 == 5, shuffle=c % 12 == 5)
                 cluster_file = os.path.join(tmp, "cl.tsv")
                 inputs.write_table(crow, cluster_file)
             results = []
@@ -133,7 +134,12 @@ def load_task(task):
                 if perm_i > 0:
                     rng.shuffle(order)
                 path = os.path.join(tmp, "in_%d.%s" % (perm_i, "tsv" if sep == "\t" else "csv"))
-                inputs.write_table([rows[i] for i in order], path, sep=sep)
+                # file syntax that carries no information: column order, line terminator, final newline
+                cols = list(rows[0].keys())
+                if c % 4 in (1, 2):
+                    cols = [cols[int(k)] for k in np.random.default_rng([task["seed"], c, perm_i]).permutation(len(cols))]
+                inputs.write_table([rows[i] for i in order], path, sep=sep, columns=cols,
+                                   newline="\r\n" if (c + perm_i) % 5 == 0 else "\n", final_newline=(c + perm_i) % 3 != 0)
                 try:
                     data, smp = load_data(path, np.random.default_rng(0), 1e-4, 0.4, False, cluster_file=cluster_file,
                                           density=density, grid_size=G, outlier_prob=0.0, precision=precision)
@@ -237,7 +243,8 @@ def run(ctx):
     quick = ctx.tier == "quick"
     ctx.rule = ("generated tables of 2-8 mutations x 1-3 samples with mutation classes ok / missing in a sample / zero "
                 "major CN in a sample / duplicated / zero everywhere, numeric and string ids (incl. '#', ':', '|', blanks, and names "
-                "that spell a missing-value token: NA, null, None, N/A ...), tab or comma, optional "
+                "that spell a missing-value token: NA, null, None, N/A ...), tab or comma, columns in any order, LF or CRLF line ends, "
+                "with or without a final newline, optional "
                 "columns present or absent, unused annotation columns (partly blank, populated, entirely blank) in two of five tables, with and without a cluster file; 5 random row permutations each; "
                 "distinct = (set of classes present, separator, optional columns, clustering, #samples)")
     ctx.assumptions = ["excluded by the property: a sample keeping no usable row; extra rows in one sample offsetting "
